@@ -104,7 +104,14 @@ def check_range(prog: Program, res: Result) -> None:
     res.floor(R, 2)
 
 
-def _grid_call_of(prog: Program, fi: FunctionInfo, xv_name: str) -> Optional[ast.Call]:
+def _grid_call_of(prog: Program, fi: FunctionInfo, xv_name: str, at: Optional[ast.AST] = None) -> Optional[ast.Call]:
+    if at is not None:
+        # the definition that reaches the use, through named pairs (grid = make_grid_vectors(...); xv, yv = grid)
+        rd = astq.reaching_def(fi.node, xv_name, at, unpack_calls=True)
+        v = rd.value if rd is not None else None
+        v = v.value if isinstance(v, ast.Subscript) else v
+        if isinstance(v, ast.Call) and prog.resolve_call(fi, v) == f"{UT}:make_grid_vectors":
+            return v
     for st in walk_function(fi.node):
         if isinstance(st, ast.Assign) and isinstance(st.targets[0], ast.Tuple) and xv_name in [norm(e) for e in st.targets[0].elts] \
                 and isinstance(st.value, ast.Call) and prog.resolve_call(fi, st.value) == f"{UT}:make_grid_vectors":
@@ -132,7 +139,7 @@ def check_sigma(prog: Program, res: Result) -> None:
             n_sites += 1
             res.touch(fi)
             xv = b.get("xv")
-            gc = _grid_call_of(prog, fi, norm(xv)) if xv is not None else None
+            gc = _grid_call_of(prog, fi, norm(xv), enclosing_stmt(c)) if xv is not None else None
             stride = astq.bind_args(mgv, gc).get("output_stride") if gc is not None else None
             ok = isinstance(sg, ast.BinOp) and isinstance(sg.op, ast.Mult) and stride is not None and norm(stride) in (norm(sg.left), norm(sg.right))
             other = None
